@@ -348,7 +348,7 @@ func writeCases(dir, corrModule string, cases interface{}, coq func(int) string,
 		return err
 	}
 	var b strings.Builder
-	b.WriteString("From Coq Require Import List ZArith Bool.\nImport ListNotations.\n")
+	b.WriteString("From Coq Require Import List ZArith Bool String.\nImport ListNotations.\n")
 	b.WriteString("From PT Require Import Corr." + corrModule + ".\n")
 	b.WriteString("Definition cases : list case := [\n")
 	for i := 0; i < n; i++ {
